@@ -210,16 +210,21 @@ class Ctx:
                 g["n"] += 1
         nviol = 0
         known = 0
+        known_hits = {}
         for (kind, key), g in sorted(groups.items()):
             f = match_finding(findings, kind, key)
             if f is not None:
-                known += 1
-                print(f"KNOWN-FINDING: property={self.prop} {f['id']}: {f['summary']} [witness {key} kind {kind}; {g['n']} failing case(s)]")
+                h = known_hits.setdefault(f["id"], {"f": f, "witnesses": [], "cases": 0})
+                h["witnesses"].append(key)
+                h["cases"] += g["n"]
                 continue
             nviol += 1
             path = write_replay(self.prop, self.module, g, key)
             print(f"VIOLATION property={self.prop} replay={path}")
             print(f"  kind={kind} witness={key} cases={g['n']}\n  detail={g['detail']}")
+        for fid, h in sorted(known_hits.items()):
+            known += 1
+            print(f"KNOWN-FINDING: property={self.prop} {fid}: {h['f']['summary']} [{len(h['witnesses'])} minimal witness(es), e.g. {h['witnesses'][0]}; {h['cases']} failing case(s)]")
         for u in unreproduced[:20]:
             print(f"ANOMALY (not reproduced in a fresh process, not counted): {self.prop} {case_key(u['case'])} {u['kind']}")
         for case, info in self.harness_errors[:10]:
@@ -264,7 +269,7 @@ class Ctx:
             "wall_s": round(self.elapsed(), 2),
             "violations": int(nviol),
         }
-        d = os.path.join(env.VERIF, "evidence")
+        d = os.environ.get("VERIF_EVIDENCE_DIR") or os.path.join(env.VERIF, "evidence")
         os.makedirs(d, exist_ok=True)
         tmp = os.path.join(d, f".{self.prop}.json.tmp")
         with open(tmp, "w") as f:
@@ -309,7 +314,7 @@ def _minimise(item, evaluate, shrink, case_key, args):
 
 
 def write_replay(prop, module, g, key):
-    d = os.path.join(env.VERIF, "replays", prop)
+    d = os.path.join(os.environ.get("VERIF_REPLAY_DIR") or os.path.join(env.VERIF, "replays"), prop)
     os.makedirs(d, exist_ok=True)
     h = hashlib.sha1((g["kind"] + "|" + key).encode()).hexdigest()[:12]
     path = os.path.join(d, f"{h}.json")
